@@ -186,6 +186,10 @@ class VolumeImg(VolumeGrid):
             raise ValueError('The shape specified should be the shape '
                 f'the 3D grid, and thus of length 3. {shape} was specified' )
         interpolation_order = self._get_interpolation_order(interpolation)
+        if interpolation_order > 0 and data.dtype.kind in 'biu':
+            # ndimage returns the input's dtype: interpolate integer and
+            # boolean data in floating point rather than rounding the result
+            data = data.astype(np.float64)
         if np.all(affine == self.affine):
             # Small trick to be more numericaly stable
             transform_affine = np.eye(4)
